@@ -165,7 +165,39 @@ func randAnnotated(r *rand.Rand) poly.Sequence {
 	return s
 }
 
+// results of earlier polyjson.Parse calls are kept and re-inspected after later calls:
+// a sequence read earlier must stay linked to its own features and keep its value.
+type c15Kept struct {
+	y    poly.Sequence
+	want []string
+	js   string
+}
+
+var c15Earlier []c15Kept
+
+func c15Recheck(w *mon.W, id string) {
+	for _, k := range c15Earlier {
+		w.Add("earlier_results_rechecked", 1)
+		for i := range k.y.Features {
+			if k.want[i] == "\x00skip" {
+				continue
+			}
+			var got string
+			p := mon.Try(func() { got = k.y.Features[i].GetSequence() })
+			if p != "" || got != k.want[i] {
+				w.Violation(id, fmt.Sprintf("a sequence read from JSON earlier no longer reports its feature sequences after later polyjson.Parse calls: feature %d reports %q %s, expected %q", i, clip(got, 50), p, clip(k.want[i], 50)), map[string]any{"json": clip(k.js, 4000)})
+				c15Earlier = nil
+				return
+			}
+		}
+	}
+	if len(c15Earlier) > 3 {
+		c15Earlier = c15Earlier[len(c15Earlier)-3:]
+	}
+}
+
 func c15RoundTrip(w *mon.W, id string, x poly.Sequence, origin, tmp string, viaFile bool) (poly.Sequence, bool) {
+	c15Recheck(w, id)
 	js, err := json.Marshal(x)
 	rep := map[string]any{"origin": origin, "json": clip(string(js), 6000)}
 	if err != nil {
@@ -191,6 +223,15 @@ func c15RoundTrip(w *mon.W, id string, x poly.Sequence, origin, tmp string, viaF
 		w.Violation(id, fmt.Sprintf("JSON round trip changed the value (%s): %s", origin, d), rep)
 		return y, false
 	}
+	keep := c15Kept{y: y, js: string(js)}
+	for i := range x.Features {
+		if wv, err := fromStruct(x.Features[i].SequenceLocation).Eval(x.Sequence); err == nil {
+			keep.want = append(keep.want, wv)
+		} else {
+			keep.want = append(keep.want, "\x00skip")
+		}
+	}
+	defer func() { c15Earlier = append(c15Earlier, keep) }()
 	for i := range x.Features {
 		want, err := fromStruct(x.Features[i].SequenceLocation).Eval(x.Sequence)
 		if err != nil {
